@@ -64,6 +64,13 @@ Definition t_atoi (s : list N) : Z :=
   | 45 :: r => (- t_dec_value (t_digits r))%Z
   | 43 :: r => t_dec_value (t_digits r)
   | t => t_dec_value (t_digits t) end.
+(* the digits AtoI reads (after the blanks and one optional sign); the contract of atoi/strtoul-like functions is that their
+   value fits the result type -- every run of at most 9 digits does *)
+Definition t_atoi_digits (s : list N) : list N :=
+  match t_drop_space s with 45 :: r => t_digits r | 43 :: r => t_digits r | t => t_digits t end.
+Definition t_atou_digits (s : list N) : list N := t_digits (t_drop_space s).
+Definition t_fits_int (s : list N) : bool := (t_dec_value (t_atoi_digits s) <=? 2147483647)%Z.
+Definition t_fits_unsigned (s : list N) : bool := (t_dec_value (t_atou_digits s) <? 4294967296)%Z.
 
 (* decimal rendering: most significant digit first, by repeated division on a list of powers *)
 Fixpoint t_dec_fuel (fuel : nat) (n : N) : list N :=
